@@ -114,7 +114,7 @@ def main():
                 for l in viol[:4]:
                     print("   ", l[:300])
         finally:
-            sh("git -C /repo checkout -- . && git -C /repo clean -fdq")
+            sh("git -C /repo reset -q --hard HEAD && git -C /repo clean -fdq")
     dst = os.path.join("/verif/seeded", name)
     os.makedirs(dst, exist_ok=True)
     shutil.copy(patch, os.path.join(dst, "patch.diff"))
